@@ -43,6 +43,30 @@ func genC20(r *core.Rand, p *core.Plan) {
 		p.Ops = append(p.Ops, core.Op{K: "sync"})
 		return
 	}
+	if r.Chance(1, 6) {
+		// An unconfirmed wallet payment whose recipient output is spent on by
+		// someone else, paying the wallet; then a restart at which the
+		// parent's (or the child's) re-broadcast gets some answer class.
+		p.Ops = append(p.Ops, core.Op{K: "newaddr", A: []int64{int64(r.Intn(4)), 0, 0}})
+		p.Ops = append(p.Ops, core.Op{K: "fund", A: []int64{0, int64(r.Range(40, 80)) * 1e6}})
+		p.Ops = append(p.Ops, core.Op{K: "mine", A: []int64{1, 100, -1, 600, int64(r.Uint64() >> 1)}})
+		p.Ops = append(p.Ops, core.Op{K: "sync"})
+		p.Ops = append(p.Ops, core.Op{K: "sendx", A: []int64{int64(r.Range(5, 30)) * 1e6, 0, 2000, 0, 0}})
+		p.Ops = append(p.Ops, core.Op{K: "fundchild", A: []int64{int64(r.Intn(4)), int64(r.Intn(4))}})
+		p.Ops = append(p.Ops, core.Op{K: "sync"})
+		if r.Chance(1, 3) {
+			p.Ops = append(p.Ops, core.Op{K: "sendx", A: []int64{int64(r.Range(1, 3)) * 1e6, 0, 2000, 0, 0}})
+		}
+		p.Ops = append(p.Ops, core.Op{K: "stop"})
+		a := []int64{}
+		for j := 0; j < r.Range(1, 3); j++ {
+			a = append(a, int64(r.Intn(7)))
+		}
+		p.Ops = append(p.Ops, core.Op{K: "resend-answers", A: a})
+		p.Ops = append(p.Ops, core.Op{K: "start"})
+		p.Ops = append(p.Ops, core.Op{K: "sync"})
+		return
+	}
 	for i := 0; i < 2; i++ {
 		p.Ops = append(p.Ops, core.Op{K: "newaddr", A: []int64{int64(r.Intn(4)), 0, 0}})
 	}
@@ -57,7 +81,7 @@ func genC20(r *core.Rand, p *core.Plan) {
 		n = r.Range(12, 40)
 	}
 	for i := 0; i < n; i++ {
-		switch r.Weighted([]int{30, 12, 10, 12, 8, 10, 8, 5}) {
+		switch r.Weighted([]int{30, 12, 10, 12, 8, 10, 8, 5, 8}) {
 		case 0: // send with a backend answer class; minconf 0 chains onto unconfirmed change
 			p.Ops = append(p.Ops, core.Op{K: "sendx", A: []int64{int64(r.Range(1, 30)) * 1e5, int64(r.Intn(2)), int64(r.Range(1, 5)) * 1000,
 				int64(r.Intn(len(answerClasses))), int64(r.Intn(3))}})
@@ -92,6 +116,11 @@ func genC20(r *core.Rand, p *core.Plan) {
 			p.Ops = append(p.Ops, core.Op{K: "fund", A: []int64{int64(r.Intn(4)), int64(r.Range(5, 80)) * 1e6}})
 		case 7:
 			p.Ops = append(p.Ops, core.Op{K: "clock", A: []int64{int64(r.Range(1, 7200))}})
+		case 8:
+			p.Ops = append(p.Ops, core.Op{K: "fundchild", A: []int64{int64(r.Intn(8)), int64(r.Intn(8))}})
+			if r.Chance(1, 2) {
+				p.Ops = append(p.Ops, core.Op{K: "sync"})
+			}
 		}
 	}
 	p.Ops = append(p.Ops, core.Op{K: "sync"})
@@ -655,4 +684,61 @@ func (x *world) unminedRaw() []*wire.MsgTx {
 		return nil
 	})
 	return unmined
+}
+
+// fundchild: someone outside the wallet spends a NON-wallet output of one of
+// the wallet's unconfirmed transactions and pays the wallet with it (a
+// recipient forwarding part of what it just received; lnd's anchor sweep).
+// The wallet learns of the child through the ordinary notification; if the
+// parent's broadcast fails later, the child is one of the "unconfirmed
+// transactions spending its outputs".
+func (rs *runState) fundchild(step int, op core.Op) {
+	x := rs.x
+	if len(x.issuedAddrs) == 0 {
+		return
+	}
+	authored := map[chainhash.Hash]bool{}
+	for _, t := range x.sent {
+		authored[t.TxHash()] = true
+	}
+	type cand struct {
+		op  wire.OutPoint
+		val int64
+	}
+	var cs []cand
+	for _, t := range x.node.Mempool {
+		id := t.TxHash()
+		if !authored[id] {
+			continue
+		}
+		for i, o := range t.TxOut {
+			if _, mine := x.byScript[string(o.PkScript)]; mine || o.Value < 20000 {
+				continue
+			}
+			po := wire.OutPoint{Hash: id, Index: uint32(i)}
+			if _, spent := x.node.SpentBy(po); spent {
+				continue
+			}
+			cs = append(cs, cand{po, o.Value})
+		}
+	}
+	if len(cs) == 0 {
+		return
+	}
+	c := cs[int(uint64(op.Arg(0))%uint64(len(cs)))]
+	a := x.issuedAddrs[int(uint64(op.Arg(1))%uint64(len(x.issuedAddrs)))]
+	tx := wire.NewMsgTx(2)
+	tx.AddTxIn(&wire.TxIn{PreviousOutPoint: c.op, Sequence: 0xffffffff})
+	tx.AddTxOut(payTo(a.addr, c.val/2))
+	x.foreignN++
+	tx.AddTxOut(&wire.TxOut{Value: c.val/2 - 1000, PkScript: foreignScript(x.foreignN)})
+	if err := x.node.Accept(tx); err != nil {
+		x.env.Logf("%d fundchild rejected by the node: %v", step, err)
+		return
+	}
+	x.funding = append(x.funding, tx)
+	x.env.Count("op.fundchild")
+	x.env.Count("probe.foreign-child-of-wallet-tx")
+	x.env.Eff()
+	x.env.Logf("%d fundchild parent=%s:%d -> %s", step, short(c.op.Hash), c.op.Index, short(tx.TxHash()))
 }
